@@ -584,8 +584,10 @@ func (hc *connectUnaryHandlerConn) Close(err error) error {
 	if err == nil {
 		return hc.request.Body.Close()
 	}
-	// In unary Connect, errors always use application/json.
+	// In unary Connect, errors always use application/json, uncompressed -
+	// whatever the error's metadata (merged into the headers above) says.
 	hc.responseWriter.Header().Set(headerContentType, connectUnaryContentTypeJSON)
+	hc.responseWriter.Header().Del(connectUnaryHeaderCompression)
 	hc.responseWriter.WriteHeader(connectCodeToHTTP(CodeOf(err)))
 	var wire *connectWireError
 	if connectErr, ok := asError(err); ok {
